@@ -136,6 +136,84 @@ def _r7_own_expression(ctx, pkg):
                       "carries the translation of its own rate string (a copied coefficient is read before it is assigned, or outside its own temperature window)",
                       expected="statement i carries reactions[i].rateexpr(..)", found=show(v)[:100])
     ctx.stats["assign_rates_element_writes"] = n
+    # ... and no text-rewriting operation stands between reac.rateexpr(..) and the statement it is pasted into: the value may be
+    # named, zipped, enumerated, selected by if/else and formatted into the statement, nothing else
+    def mod_helper(name):
+        if (TL, name) in pkg.functions:
+            return pkg.functions[(TL, name)]
+        cands = [f_ for (_, n_), f_ in pkg.functions.items() if n_ == name]
+        return cands[0] if len(cands) == 1 else None
+    fl2 = Flow(fn, TL, resolver=lambda name: pkg.resolve("TemplateLoader", name)[1] if name.startswith("_") and not name.startswith("__") else None,
+               func_resolver=mod_helper)
+    REWRITERS = {"sub", "subn", "replace", "translate", "strip", "lstrip", "rstrip", "lower", "upper", "format", "removeprefix", "removesuffix", "expandtabs"}
+    hits = []
+
+    def is_rate(x, bound):
+        if x in bound:
+            return True
+        if x[0] == "meth" and x[2] == "rateexpr":
+            return True
+        if x[0] in ("phi", "ifexp"):
+            return is_rate(x[2], bound) and is_rate(x[3], bound)
+        return False
+
+    def rate_seq(x, bound):
+        if x[0] in ("phi", "ifexp"):
+            return rate_seq(x[2], bound) and rate_seq(x[3], bound)
+        if x[0] == "copy":
+            return rate_seq(x[1], bound)
+        return x[0] == "comp" and x[1] == "list" and is_rate(x[2], bound | gens_bound(x[3], bound))
+
+    def gens_bound(gens, bound):
+        new = set()
+        for tg, it, ifs in gens:
+            if tg is None:
+                continue
+            if rate_seq(it, bound | new) and tg[0] == "bv":
+                new.add(tg)
+            z = it[2][0] if it[0] == "call" and it[1] == ("global", "enumerate") and it[2] else it
+            t2 = tg[1][1] if it is not z and tg[0] == "tuple" and len(tg[1]) == 2 else tg
+            if z[0] == "call" and z[1] == ("global", "zip") and t2[0] == "tuple" and len(t2[1]) == len(z[2]):
+                for a, b_ in zip(z[2], t2[1]):
+                    if b_[0] == "bv" and rate_seq(a, bound | new):
+                        new.add(b_)
+        return new
+
+    def visit(x, bound):
+        if not isinstance(x, tuple) or not x:
+            return
+        k = x[0]
+        if k == "comp":
+            b2 = bound | gens_bound(x[3], bound)
+            for tg, it, ifs in x[3]:
+                visit(it, bound)
+                for c in ifs:
+                    visit(c, b2)
+            visit(x[2], b2)
+            return
+        if k == "meth" and x[2] in REWRITERS and (is_rate(x[1], bound) or any(is_rate(a, bound) for a in x[3])):
+            hits.append(x)
+        elif k == "call" and x[1][0] == "attr" and x[1][1] == ("global", "re") and x[1][2] in ("sub", "subn") and any(is_rate(a, bound) for a in x[2]):
+            hits.append(x)
+        elif k in ("sub", "slice") and is_rate(x[1], bound):
+            hits.append(x)
+        for y in x[1:]:
+            if isinstance(y, tuple):
+                for z in (y if y and isinstance(y[0], tuple) else (y,)):
+                    visit(z, bound)
+    for f in fl2.facts:
+        for part in ([f.value] if f.value is not None else []) + [l.iter for l in f.loops]:
+            visit(simp(part), frozenset())
+    seen = set()
+    for h in hits:
+        if h in seen:
+            continue
+        seen.add(h)
+        ctx.bad("R7", f"_assign_rates:rate text rewritten:{show(h)[:60]}", (TL, fn.lineno),
+                f"the text returned by rateexpr() is rewritten ({show(h)[:90]}) before it is pasted into the statement: the statement does not carry the translation of the "
+                "reaction's rate string but a text derived from it by string surgery", expected="k[i] = <reactions[i].rateexpr(..)>;", found=show(h)[:160])
+    if not hits:
+        ctx.ok("R7", "_assign_rates:rate text pasted as returned", (TL, fn.lineno), "no rewriting operation is applied to the text rateexpr() returns")
 
 
 def _r6(ctx, pkg, ci):
@@ -565,6 +643,7 @@ def _r3(ctx, pkg):
 
 
 MUTANTS = [
+    {"name": "rate-text-post-processed", "file": "naunet/templateloader.py", "old": "        rateassign = [\n", "new": "        rateexprs = [rx.replace(\"pow(\", \"powf(\") for rx in rateexprs]\n        rateassign = [\n", "rules": ["R7"]},
     {"name": "repeated-expression-copied", "file": "naunet/templateloader.py", "old": "        rateassign = [\n", "new": "        first_use = {}\n        for ridx, rx in enumerate(rateexprs):\n            prev = first_use.setdefault(rx, ridx)\n            if prev != ridx:\n                rateexprs[ridx] = f\"{rate_sym}[{prev}]\"\n        rateassign = [\n", "rules": ["R7"]},
     {"name": "lark-lalr", "file": CF, "old": 'self._parser = Lark(grammar, start="expression")', "new": 'self._parser = Lark(grammar, start="expression", parser="lalr")', "rules": ["R6"]},
     {"name": "krome-rateexpr-lru-cache", "file": KR, "old": "    def rateexpr(self, grain: Grain = None) -> str:", "new": "    @__import__('functools').lru_cache(maxsize=None)\n    def rateexpr(self, grain: Grain = None) -> str:", "rules": ["R5"]},
